@@ -231,7 +231,14 @@ def registration(prog, chk):
                                 b2 = R.try_break_edges(body, node["lhs"][0])
                                 if b2:
                                     cont = [tgt for v, tgt in body.term(b2[0][0])["vals"] if v == 0]
-                if cont and body.dominates(cont[0], bb):
+                conts = list(cont or [])
+                # ... the same after the result was handed on (out of a spliced helper, into a named local, behind `&`)
+                for r2 in _moved_to(body, r):
+                    for (sb2, _tgt) in R.try_break_edges(body, r2):
+                        conts += [tgt for v, tgt in body.term(sb2)["vals"] if v == 0]
+                for (sb2, st2) in R.discr_switches_of(body, r):
+                    conts += [tgt for v, tgt in st2["vals"] if v == 0]
+                if any(body.dominates(c0, bb) for c0 in conts):
                     ok = True
                     how = ec.path.split("::")[-1]
             if not ok and _withdrawn_when_deferred(prog, body):
